@@ -47,7 +47,7 @@ type devModel struct {
 func (c *Ctx) devModel() (*devModel, string) {
 	fn := c.MustFn("yang.(*Entry).ApplyDeviate")
 	find := c.MustFn("yang.(*Entry).Find")
-	finds := c.callsTo(fn, find)
+	finds := c.callsToLookup(fn, find)
 	if len(finds) != 1 {
 		return nil, fmt.Sprintf("%d Find calls in the deviation applier", len(finds))
 	}
